@@ -46,6 +46,7 @@ pub trait Rt {
     fn poll_res_ctok(&self) -> Poll<Result<&u8, CTok>>;
     fn vec_res_tok(&self) -> Vec<Result<&u8, Tok>>;
     fn opt_res(&self) -> Option<Result<&u8, u8>>;
+    fn res_str_static(&self) -> Result<&str, &'static str>;
 }
 
 type Stored<F> = <<F as MockFn>::OutputKind as Kind>::Return;
@@ -142,6 +143,31 @@ fn c17_result_of_ref() {
     }
     kani::cover!(r.is_ok());
     kani::cover!(r.is_err());
+}
+
+//@ props=C17,C12 tier=quick fns=determine_output_structure,Deep<Result>::into_return_once,AsReturn::output inst="-> Result<&str, &'static str> (a self-borrowed leaf next to a 'static leaf)" bounds="Ok(string from a 3-literal pool) | Err(same pool); single-use path; two requests"
+/// A return type that mixes a leaf borrowed from self with a 'static leaf is still a composite: the borrowed leaf is
+/// lent by the mock (same address on every call, available on every call), the other leaf is the single-use one.
+#[kani::proof]
+#[kani::unwind(4)]
+fn c17_result_ref_with_static_err() {
+    let ok: bool = kani::any();
+    let text = pool();
+    let r: Result<&'static str, &'static str> = if ok { Ok(text) } else { Err(text) };
+    let s = once::<R::res_str_static, _>(r);
+    let (a, b) = (s.output(), s.output());
+    if ok {
+        match (a, b) {
+            (Some(Ok(x)), Some(Ok(y))) => assert!(x.len() == text.len() && core::ptr::eq(x.as_ptr(), y.as_ptr())),
+            _ => assert!(false, "the borrowed leaf is returned on every call"),
+        }
+    } else {
+        assert!(matches!(a, Some(Err(e)) if e.len() == text.len()));
+        assert!(b.is_none(), "the owned leaf was configured through the single-use path");
+    }
+    kani::cover!(ok);
+    kani::cover!(!ok);
+    core::mem::forget(s);
 }
 
 //@ props=C17,C12 tier=quick fns=Deep<Result>::into_return_once,AsReturn::output,Owning::into_return_once inst="-> Result<&[u8], Tok> (Tok: no Clone)" bounds="Ok(slice of length <= 2, symbolic bytes) | Err(Tok(all u8)); three requests; drop counter"
